@@ -42,6 +42,8 @@ CONSTANTS Series, TimesRaw, TOff, Vals, Types, Apps,
                        \*              OOOCompactionHead carries no tombstones)
                        \*   "KF-C20-2" Delete of a sample that is only in blocks but would be re-appended by WAL replay
                        \*   "KF-C20-3" a Commit that stores an out-of-order sample inside an older head tombstone interval
+                       \*   "KF-C01-5" a Commit that logs samples of a series whose series record may still be held back by
+                       \*              another open appender (the record is logged later; replay drops the samples)
                        \*   "KF-C01-2" a Commit whose WAL order differs from its commit order (a float staleness marker
                        \*              deferred behind a later sample of the same series): a restart replays the marker
           KFInitOpts,  \* TRUE: model the code's deviation KF-C02-1 (SetOptions on an initAppender is dropped)
@@ -53,6 +55,9 @@ VARIABLES
   ino,      \* [Series -> Seq(Sample)]  in-order samples in the head, ascending t
   ooh,      \* [Series -> Seq(Sample)]  current out-of-order head chunk, ascending t
   oom,      \* [Series -> SUBSET Sample] samples in m-mapped out-of-order chunks
+  oghost,   \* [Series -> SUBSET Sample] out-of-order samples already compacted into blocks whose m-mapped chunks are
+            \*   still in the head-chunk files: loadMmappedChunks brings them back at the next start (harmless
+            \*   duplicates of block data, until that data is deleted: KF-C20-2)
   htomb,    \* [Series -> SUBSET (Int \X Int)] head tombstone intervals as Head.Delete records them (clamped to the
             \*   head's and the series' in-order range); only used to recognise the trigger of KF-C20-3
   hdel,     \* [Series -> SUBSET Times] timestamps of in-order head samples covered by a head tombstone
@@ -69,9 +74,9 @@ VARIABLES
   kindv,    \* "any" or the action kind drawn for the next step (simulation balancing only)
   nops, hist
 
-hvars == <<ino, ooh, oom, hdel, htomb, wino, hInit, hMin, hMax, minValid>>
-vars  == <<ino, ooh, oom, hdel, htomb, wino, hInit, hMin, hMax, minValid, blk, blkMax, oooSeen, app, stored, kfset, kindv, nops, hist>>
-View  == <<ino, ooh, oom, hdel, htomb, wino, hInit, hMin, hMax, minValid, blk, blkMax, oooSeen, app, stored, kfset, kindv>>
+hvars == <<ino, ooh, oom, oghost, hdel, htomb, wino, hInit, hMin, hMax, minValid>>
+vars  == <<ino, ooh, oom, oghost, hdel, htomb, wino, hInit, hMin, hMax, minValid, blk, blkMax, oooSeen, app, stored, kfset, kindv, nops, hist>>
+View  == <<ino, ooh, oom, oghost, hdel, htomb, wino, hInit, hMin, hMax, minValid, blk, blkMax, oooSeen, app, stored, kfset, kindv>>
 
 \* model times are TimesRaw shifted down by TOff (cfg files cannot write negative numbers)
 Times == {x - TOff : x \in TimesRaw}
@@ -86,7 +91,7 @@ Range(q) == {q[i] : i \in 1..Len(q)}
 
 Sample == [t : Times, v : Vals \cup {0}, ty : Types]
 NoApp == [st |-> "closed", api |-> "v1", rej |-> FALSE, ini |-> FALSE, mv |-> 0, hm |-> 0,
-          pend |-> <<>>, types |-> [s \in Series |-> "none"], nb |-> 0]
+          pend |-> <<>>, types |-> [s \in Series |-> "none"], nb |-> 0, touched |-> {}]
 
 \* floor division / Go's truncating division
 FloorDiv(a, b) == a \div b                       \* TLA+ \div floors
@@ -138,6 +143,7 @@ ExpAll(st) == [s \in Series |-> ExpList(st, s)]
 -----------------------------------------------------------------------------
 Init ==
   /\ ino = [s \in Series |-> <<>>] /\ ooh = [s \in Series |-> <<>>] /\ oom = [s \in Series |-> {}]
+  /\ oghost = [s \in Series |-> {}]
   /\ hdel = [s \in Series |-> {}] /\ htomb = [s \in Series |-> {}] /\ wino = [s \in Series |-> <<>>]
   /\ hInit = FALSE /\ hMin = PosInf /\ hMax = NegInf /\ minValid = NegInf
   /\ blk = [s \in Series |-> {}] /\ blkMax = NegInf /\ oooSeen = (W > 0)
@@ -203,14 +209,17 @@ AppendSample(a, s, t, v, ty) ==
                    /\ ~(KFV1Hist /\ ap0.api = "v1" /\ ty1 # "f")
          cls  == Cls(effRej)
          bt   == Batch(ap0, s, ty1)
+         \* getOrCreate runs before the admission test: the series exists in memory from here on, and its
+         \* series record is written by whichever appender created it, at that appender's Commit or Rollback
+         apt  == IF fast THEN ap0 ELSE [ap0 EXCEPT !.touched = @ \cup {s}]
          ap1  == IF cls = "ok"
-                 THEN [ap0 EXCEPT !.pend = Append(@, [s |-> s, t |-> t, v |-> v, ty |-> ty1, b |-> bt[1]]),
+                 THEN [apt EXCEPT !.pend = Append(@, [s |-> s, t |-> t, v |-> v, ty |-> ty1, b |-> bt[1]]),
                                   !.nb = bt[1], !.types = bt[2]]
-                 ELSE ap0
+                 ELSE apt
      IN /\ app' = [app EXCEPT ![a] = ap1]
         /\ hInit' = (hInit \/ init)
         /\ hMax' = hMax1 /\ hMin' = hMin1
-        /\ UNCHANGED <<ino, ooh, oom, hdel, htomb, wino, minValid, blk, blkMax, oooSeen, stored, kfset>>
+        /\ UNCHANGED <<ino, ooh, oom, oghost, hdel, htomb, wino, minValid, blk, blkMax, oooSeen, stored, kfset>>
         /\ Step([a |-> "Append", app |-> a, s |-> s, t |-> t, v |-> v, ty |-> ty, ret |-> cls, pret |-> pcls,
                  kf |-> IF cls = pcls THEN "" ELSE IF KFInitOpts /\ ap0.api = "v1" /\ ap0.ini THEN "KF-C02-1" ELSE "KF-C02-2",
                  ooo |-> (~fast /\ res[1]), mv |-> ap0.mv, hm |-> ap0.hm])
@@ -288,7 +297,7 @@ Commit(a) ==
          st1 == IF ap.st = "init" THEN st0 ELSE CommitFold(logged, st0, ap.hm, ap.mv)
      IN /\ ino' = st1.ino /\ ooh' = st1.ooh /\ oom' = st1.oom /\ stored' = st1.stored
         /\ wino' = IF ap.st = "init" THEN wino ELSE LogFold(logged, wino)
-        /\ hdel' = hdel /\ htomb' = htomb
+        /\ hdel' = hdel /\ htomb' = htomb /\ oghost' = oghost
         /\ hMin' = Min2(hMin, st1.imin) /\ hMax' = Max2(hMax, st1.imax)      \* updateMinMaxTime
         /\ app' = [app EXCEPT ![a] = NoApp]
         /\ UNCHANGED <<hInit, minValid, blk, blkMax, oooSeen>>
@@ -301,11 +310,16 @@ Commit(a) ==
                \* an out-of-order sample stored under an older head tombstone of its series
                hid == \E s \in Series : \E x \in (Range(st1.ooh[s]) \cup st1.oom[s]) \ (Range(ooh[s]) \cup oom[s]) :
                          \E iv \in htomb[s] : x.t >= iv[1] /\ x.t <= iv[2]
+               \* a sample logged while another open appender may hold the not yet logged series record of its series
+               \* (over-approximation: that appender has looked the series up)
+               orphan == \E i \in 1..Len(ap.pend) : \E b \in Apps \ {a} :
+                            app[b].st = "open" /\ ap.pend[i].s \in app[b].touched
                ks == (IF diff THEN {"KF-C01-2"} ELSE {}) \cup (IF hid THEN {"KF-C20-3"} ELSE {})
+                     \cup (IF orphan THEN {"KF-C01-5"} ELSE {})
            IN /\ ks \subseteq AllowKF
               /\ kfset' = kfset \cup ks
               /\ Step([a |-> "Commit", app |-> a, exp |-> ExpAll(st1.stored),
-                       kf |-> IF hid THEN "KF-C20-3" ELSE IF diff THEN "KF-C01-2" ELSE ""])
+                       kf |-> IF orphan THEN "KF-C01-5" ELSE IF hid THEN "KF-C20-3" ELSE IF diff THEN "KF-C01-2" ELSE ""])
 
 Rollback(a) ==
   /\ "Rollback" \in Acts
@@ -324,8 +338,9 @@ OOOInRange(S, lo, hi) == \E s \in S : \E x \in Range(ooh[s]) \cup oom[s] : InRan
 
 \* a sample that is no longer in the head in-order data but that a WAL replay would append again (it was stored
 \* out-of-order and logged, or its series was truncated): deleting it only writes block tombstones
-WalGhostInRange(S, lo, hi) == \E s \in S : \E x \in Range(wino[s]) :
-                                 InRange(x, lo, hi) /\ x.t >= blkMax /\ x \notin Range(ino[s])
+WalGhostInRange(S, lo, hi) == \E s \in S :
+                                 \/ \E x \in Range(wino[s]) : InRange(x, lo, hi) /\ x.t >= blkMax /\ x \notin Range(ino[s])
+                                 \/ \E x \in oghost[s] : InRange(x, lo, hi)
 DeleteKF(S, lo, hi) == (IF OOOInRange(S, lo, hi) THEN {"KF-C20-1"} ELSE {}) \cup
                        (IF WalGhostInRange(S, lo, hi) THEN {"KF-C20-2"} ELSE {})
 
@@ -335,7 +350,7 @@ Delete(S, lo, hi) ==
   /\ kfset' = kfset \cup DeleteKF(S, lo, hi)
   /\ LET keep(X) == {x \in X : ~InRange(x, lo, hi)} IN
      /\ hdel' = [s \in Series |-> IF s \in S THEN hdel[s] \cup {x.t : x \in {y \in Range(ino[s]) : InRange(y, lo, hi)}} ELSE hdel[s]]
-     /\ UNCHANGED <<ino, wino>>
+     /\ UNCHANGED <<ino, wino, oghost>>
      /\ htomb' = [s \in Series |->
           IF s \in S /\ hInit /\ lo <= hMax /\ hi >= hMin /\ ino[s] # <<>>
           THEN LET t0 == Max2(Max2(lo, hMin), ino[s][1].t)
@@ -401,6 +416,7 @@ Compact ==
         /\ blk' = IF doOOO THEN [s \in Series |-> st1.blk[s] \cup OOOAll(s)] ELSE st1.blk
         /\ ooh' = IF doOOO THEN [s \in Series |-> <<>>] ELSE ooh
         /\ oom' = IF doOOO THEN [s \in Series |-> {}] ELSE oom
+        /\ oghost' = IF doOOO THEN [s \in Series |-> oghost[s] \cup OOOAll(s)] ELSE oghost
         /\ UNCHANGED <<hInit, oooSeen, app, stored, kfset>>
         /\ Step([a |-> "Compact", nblocks |-> st1.n, exp |-> ExpAll(stored)])
 
@@ -410,7 +426,13 @@ CompactOOO ==
   /\ oooSeen
   /\ blk' = [s \in Series |-> blk[s] \cup OOOAll(s)]
   /\ ooh' = [s \in Series |-> <<>>] /\ oom' = [s \in Series |-> {}]
-  /\ UNCHANGED <<ino, hdel, htomb, wino, hInit, hMin, hMax, minValid, blkMax, oooSeen, app, stored, kfset>>
+  /\ oghost' = [s \in Series |-> oghost[s] \cup OOOAll(s)]
+  \* truncateOOO runs the head GC, which may raise minTime / minValidTime like after a head truncation
+  /\ LET g == IF \E s \in Series : OOOAll(s) # {}
+              THEN AfterGC([ino |-> ino, hMin |-> hMin, hMax |-> hMax, minValid |-> minValid])
+              ELSE [hMin |-> hMin, minValid |-> minValid]
+     IN hMin' = g.hMin /\ minValid' = g.minValid
+  /\ UNCHANGED <<ino, hdel, htomb, wino, hInit, hMax, blkMax, oooSeen, app, stored, kfset>>
   /\ Step([a |-> "CompactOOO", exp |-> ExpAll(stored)])
 
 CleanTombstones ==
@@ -439,7 +461,8 @@ Reopen ==
         /\ hInit' = (its # {})
         /\ hMin' = IF its # {} THEN SetMin(its) ELSE PosInf
         /\ hMax' = IF its # {} THEN SetMax(its) ELSE NegInf
-        /\ UNCHANGED <<ooh, oom, blk, blkMax, oooSeen, app, stored, kfset>>
+        /\ oom' = [s \in Series |-> oom[s] \cup oghost[s]]
+        /\ UNCHANGED <<ooh, oghost, blk, blkMax, oooSeen, app, stored, kfset>>
         /\ Step([a |-> "Reopen", exp |-> ExpAll(stored)])
 
 End == nops = MaxOps /\ nops' = MaxOps + 1 /\ UNCHANGED <<hvars, blk, blkMax, oooSeen, app, stored, kfset, kindv, hist>>
